@@ -59,17 +59,22 @@ Theorem C12_timer_sane_refuted :
 Proof. exact f22_stuck. Qed.
 
 (** C12_walk_main: for every valid set-up and EVERY valid event list the safety
-    walk of the oracle never rejects the model's own trace: after every call -
-    whether or not the host obeyed the timer book - the timers the state of each
-    port relies on are armed (announce and sync timer of a master port, delay
-    request timer of an end-to-end slave port, announce receipt timer of a
-    listening port), except for the known stuck state F22 (a port that recovered
-    from FAULTY listens without a receipt timer), which the walk records in its
-    [recovered] / [f22] flags.  The proof gives every call an obligation (each
-    timer the new state needs is requested by the call, or was needed and armed
-    before and is not the one that just fired, or the F22 recovery) and shows it
-    for every handler, the BMCA and the initial state.  The bounded-liveness
-    conjuncts of ok_C12 (final_ok, dreq_cadence_ok) are evaluated on traces only. *)
+    walk of the oracle never rejects the model's own trace: (a) an announce or
+    sync timer firing on a master port, a delay request timer firing on an
+    end-to-end slave port or on any peer-to-peer port, emits exactly one message
+    of its type; (b) after every call - whether or not the host obeyed the timer
+    book - the timers the state of each port relies on are armed (announce and
+    sync timer of a master port, delay request timer of an end-to-end slave port,
+    announce receipt timer of a listening port), except for the known stuck state
+    F22, which is excused only in its exact form: a port that listens since it
+    recovered from a fault that BEGAN without a running receipt timer (it had been
+    master); a receipt timer lost during a fault is not excused (a faulty port
+    keeps its receipt timer running: part of the invariant).  The proof gives
+    every call an obligation (each timer the new state needs is requested by the
+    call, or was needed and armed before and is not the one that just fired, or
+    the port just became faulty) and shows it for every handler, the BMCA and the
+    initial state.  The bounded-liveness conjuncts of ok_C12 (final_ok,
+    dreq_cadence_ok) are evaluated on traces only. *)
 From SV Require Import Port.MainC12.
 Theorem C12_walk_main : forall s es rel,
   setup_valid s -> Forall event_valid es ->
